@@ -379,11 +379,16 @@ Definition h_zpop (idx : Z) (d : db) (parts : list frame) : frame * db :=
       match count with
       | None => (r_err, d)
       | Some n =>
+          (* 67ce0e4: the key's type is met up front (zcard), also when the count is 0 *)
+          match eng_zcard d key with
+          | None => (r_wrongtype, d)
+          | Some _ =>
           (* each iteration removes one member or stops: card + 1 iterations suffice *)
           match zpop_loop (Z.to_nat (Z.min n (zcard_or0 d key + 1))) d key idx [] with
           | None => (r_wrongtype, d)
           | Some ([], d') => (FNullArray, d')
           | Some (l, d') => (FArray l, d')
+          end
           end
       end
   end.
